@@ -25,6 +25,7 @@ def run(ctx):
     templates(ctx, "R5")
     youtube_model(ctx, "R6")
     facebook_model(ctx, "R7")
+    google_model(ctx, "R8")
 
 
 def public_functions(mod):
@@ -400,7 +401,7 @@ def youtube_model(ctx, rule):
 FB_VOCAB = ["some.handle", "123456", "groups", "posts", "permalink", "videos", "photos", "people", "watch", "a.99", "x.php"]
 FB_QUERIES = [
     "/profile.php?id=100", "/profile.php", "/permalink.php?story_fbid=55&id=100", "/permalink.php?story_fbid=55", "/story.php?story_fbid=55&id=100", "/story.php?id=100",
-    "/photo.php?fbid=10&set=a.1", "/photo.php?fbid=10&set=g.7", "/photo/?fbid=10&set=gm.3", "/photo.php?set=a.1", "/some.handle/photos/a.1/10/?type=3", "/watch/?v=44", "/watch/?x=1",
+    "/photo.php?fbid=10&set=a.1", "/photo.php?fbid=10&set=g.7", "/photo.php?fbid=10&set=a.1&set=g.2", "/photo.php?fbid=10&set=g.2&set=a.1", "/photo.php?fbid=10&set=g.", "/photo.php?fbid=10&set=a.", "/photo.php?fbid=10&set=x.1", "/photo/?fbid=10&set=gm.3", "/photo.php?set=a.1", "/some.handle/photos/a.1/10/?type=3", "/watch/?v=44", "/watch/?x=1",
     "/some.handle/videos/44/", "/123456/videos/44", "/groups/123456/posts/77/", "/groups/some.group/permalink/77/", "/people/Some-Name/100", "/people/Some-Name",
 ]
 
@@ -458,3 +459,46 @@ def facebook_model(ctx, rule):
                "parse_facebook_url(%r) is %r, its canonical url %r re-parses to %r" % (u, r, canon, r2), site, witness=u, trivial=True)
     ctx.ob(rule, "facebook/cells", True, "", site, sample="%d urls, %d records round-tripped" % (n, nrec))
     ctx.require_instances(rule, nrec, 50, "facebook records")
+
+
+GOOGLE_CELLS = [
+    "/document/d/abc/edit", "/document/d/abc", "/document/d/abc/", "/document/d/pub/edit", "/document/d/pub", "/spreadsheets/d/e/XYZ/pub", "/spreadsheets/d/e/XYZ/pub?output=csv", "/document/d/e/pub", "/document/d/e/x", "/document/d/e",
+    "/presentation/d/", "/presentation/d", "/document/x/abc", "/other/d/abc", "/forms/d/e/1FAIpQ/viewform", "/", "",
+]
+
+
+def google_model(ctx, rule):
+    ctx.rule(rule, "model table (Google Drive): parse_google_drive_url, interpreted on docs.google.com x one path per route class {file with / without an action, an id spelled like the 'pub' marker, public link with / without query, truncated routes, unknown type, other second segment}: never raises, and for every record r = parse(u), parse(r.url) == r")
+    from ..microeval import run_function, Raised, Obj, _class_member
+    repo = ctx.repo
+    gm = repo.mod("google")
+    fparse = gm.func("parse_google_drive_url")
+    ctx.fn(fparse.qualname)
+    site = gm.site(fparse.node)
+    n = 0
+    for tail in GOOGLE_CELLS:
+        for host in ("https://docs.google.com", "docs.google.com"):
+            u = host + tail
+            n += 1
+            try:
+                r = run_function(repo, fparse, [u])
+            except Raised as e:
+                ctx.ob(rule, "google/total/%s" % u, False, "parse_google_drive_url(%r) raises %s" % (u, e.name), site, witness=u)
+                continue
+            except Unknown as e:
+                ctx.undecided(rule, "parse_google_drive_url(%r): %s" % (u, e))
+                return
+            if not isinstance(r, Obj):
+                ctx.ob(rule, "google/none/%s" % u, r is None, "parse_google_drive_url(%r) gives %r" % (u, r), site, witness=u, trivial=True)
+                continue
+            try:
+                canon = _class_member(repo, r, "url")
+                r2 = run_function(repo, fparse, [canon])
+            except Raised as e:
+                ctx.ob(rule, "google/round-trip/%s" % u, False, "building or re-parsing the canonical url of %r raises %s" % (r, e.name), site, witness=u)
+                continue
+            except Unknown as e:
+                ctx.undecided(rule, "canonical url of %r: %s" % (r, e))
+                return
+            ctx.ob(rule, "google/round-trip/%s" % u, _obj_key(r2) == _obj_key(r), "parse_google_drive_url(%r) is %r, its canonical url %r re-parses to %r" % (u, r, canon, r2), site, witness=u)
+    ctx.require_instances(rule, n, 2 * len(GOOGLE_CELLS), "google url cells")
